@@ -15,6 +15,7 @@ long verif_nondet(const char* name, long lo, long hi) {
   if (v < lo || v > hi) { printf("VECTOR-OUT-OF-RANGE %s\n", name); fflush(stdout); _exit(78); }
   return v;
 }
+long verif_concretize(long v) { return v; }
 void __CPROVER_assume(bool c) { if (!c) { printf("ASSUME-FALSE\n"); fflush(stdout); _exit(77); } }
 void __CPROVER_assert(bool c, const char* m) { if (!c) { printf("ASSERT-FAIL %s\n", m); g_fail++; } }
 void verif_reach(const char* l) { printf("REACH %s\n", l); }
